@@ -1030,10 +1030,30 @@ where
     LM: MatchLiteral,
     <T as FromStr>::Err: Debug,
 {
-    use self::detail::FlatOp;
-
     let mut flat_nodes = FlatNodeVec::<T>::new();
     let mut flat_ops = FlatOpVec::<T>::new();
+    flatten_vecs_into(deep_expr, prio_offset, &mut flat_nodes, &mut flat_ops);
+    (flat_nodes, flat_ops)
+}
+
+/// Appends the flattened nodes and operators of `deep_expr` to the passed vectors. The recursion
+/// does not keep vectors of nodes and operators in every stack frame, since deeply nested
+/// expressions would otherwise exhaust the stack.
+fn flatten_vecs_into<T, OF, LM>(
+    deep_expr: &DeepEx<T, OF, LM>,
+    prio_offset: i64,
+    flat_nodes: &mut FlatNodeVec<T>,
+    flat_ops: &mut FlatOpVec<T>,
+) where
+    T: DataType,
+    OF: MakeOperators<T>,
+    LM: MatchLiteral,
+    <T as FromStr>::Err: Debug,
+{
+    use self::detail::FlatOp;
+
+    let idx_first_node = flat_nodes.len();
+    let idx_first_op = flat_ops.len();
 
     for (node_idx, node) in deep_expr.nodes().iter().enumerate() {
         match node {
@@ -1046,9 +1066,7 @@ where
                 flat_nodes.push(flat_node);
             }
             DeepNode::Expr(e) => {
-                let (mut sub_nodes, mut sub_ops) = flatten_vecs(e, prio_offset + 100i64);
-                flat_nodes.append(&mut sub_nodes);
-                flat_ops.append(&mut sub_ops);
+                flatten_vecs_into(e, prio_offset + 100i64, flat_nodes, flat_ops);
             }
         };
         if node_idx < deep_expr.bin_ops().ops.len() {
@@ -1069,10 +1087,14 @@ where
     }
 
     if deep_expr.unary_op().op.len() > 0 {
-        if !flat_ops.is_empty() {
+        if flat_ops.len() > idx_first_op {
             // find the last binary operator with the lowest priority of this expression,
             // since this will be executed as the last one
-            let low_prio_op = match flat_ops.iter_mut().rev().min_by_key(|op| op.bin_op.op.prio) {
+            let low_prio_op = match flat_ops[idx_first_op..]
+                .iter_mut()
+                .rev()
+                .min_by_key(|op| op.bin_op.op.prio)
+            {
                 None => panic!("cannot have more than one flat node but no binary ops"),
                 Some(x) => x,
             };
@@ -1080,12 +1102,11 @@ where
                 .unary_op
                 .append_after(deep_expr.unary_op().op.clone());
         } else {
-            flat_nodes[0]
+            flat_nodes[idx_first_node]
                 .unary_op
                 .append_after(deep_expr.unary_op().op.clone());
         }
     }
-    (flat_nodes, flat_ops)
 }
 
 impl<T, OF, LM> Calculate<'_, T> for FlatEx<T, OF, LM>
